@@ -137,3 +137,16 @@ impl BusListener {
         }
     }
 }
+
+#[cfg(feature = "verif-hooks")]
+impl BusListener {
+    pub(crate) fn verif_snapshot(&self) -> crate::verif::BusListenerSnapshot {
+        crate::verif::BusListenerSnapshot {
+            conn: self.conn_id.verif_raw(),
+            filters: self.filters.iter().copied().collect(),
+            scope: self.scope,
+            matches_all_objects: self.matches_all_objects,
+            matches_specific_services: self.matches_specific_services,
+        }
+    }
+}
